@@ -356,8 +356,7 @@ Section Engine.
   (* ------------------------------------------------------------------ evaluation *)
   Variable st : settings.
   Variable md : model.
-  Variable pars : list V.
-  Definition par (i : nat) : V := nth i pars 0.
+  Variable par : nat -> V.                 (* component i of the (flattened) parameter tensor *)
   Definition pstart (name : string) : nat := match find_pset (md_psets md) name with Some p => p_start p | None => O end.
   Definition psize (name : string) : nat := match find_pset (md_psets md) name with Some p => p_n p | None => O end.
 
@@ -429,19 +428,29 @@ Section Engine.
                        | PPoisson => tab (p_n p) (fun i => par (p_start p + i) * fac_of p i) end) (md_psets md).
   Definition main_terms (maindata : list V) : list term :=
     map (fun nl => TPois (fst nl) (snd nl)) (combine maindata expected_actualdata_hot).
-  Definition logpdf_terms_hot (data : list V) : result (list term) :=
-    if negb (Nat.eqb (length pars) (md_npars md)) then Err EInvalidPdfParameters else
+  Definition logpdf_terms_hot (npars_given : nat) (data : list V) : result (list term) :=
+    if negb (Nat.eqb npars_given (md_npars md)) then Err EInvalidPdfParameters else
     if negb (Nat.eqb (length data) (nmaindata + length (md_auxdata md))) then Err EInvalidPdfData else
     Ok (main_terms (firstn nmaindata data) ++ cterms (md_psets md) (skipn nmaindata data) 0).
   End Hot.
   Definition build : result model := build_hot cfg_channels cfg_samples cfg_modifiers.
+  Definition parf (pars : list V) (i : nat) : V := nth i pars 0.
   Definition expected_actualdata (st : settings) (md : model) (pars : list V) : list V :=
-    expected_actualdata_hot cfg_channels cfg_samples cfg_modifiers st md pars.
+    expected_actualdata_hot cfg_channels cfg_samples cfg_modifiers st md (parf pars).
   Definition expected_by_sample (st : settings) (md : model) (pars : list V) : list (list V) :=
-    expected_by_sample_hot cfg_channels cfg_samples cfg_modifiers st md pars.
-  Definition expected_auxdata (md : model) (pars : list V) : list V := expected_auxdata_hot md pars.
+    expected_by_sample_hot cfg_channels cfg_samples cfg_modifiers st md (parf pars).
+  Definition expected_auxdata (md : model) (pars : list V) : list V := expected_auxdata_hot md (parf pars).
   Definition logpdf_terms (st : settings) (md : model) (pars data : list V) : result (list term) :=
-    logpdf_terms_hot cfg_channels cfg_samples cfg_modifiers st md pars data.
+    logpdf_terms_hot cfg_channels cfg_samples cfg_modifiers st md (parf pars) (length pars) data.
+  (* batched model: the parameter tensor (N, npars) is flattened and gathered at r * npars + i *)
+  Definition parf_batched (npars : nat) (rows : list (list V)) (r i : nat) : V := nth (r * npars + i) (concat rows) 0.
+  Definition expected_actualdata_batched (st : settings) (md : model) (rows : list (list V)) : list (list V) :=
+    map (fun r => expected_actualdata_hot cfg_channels cfg_samples cfg_modifiers st md (parf_batched (md_npars md) rows r))
+        (seq 0 (length rows)).
+  Definition logpdf_terms_batched (st : settings) (md : model) (rows datas : list (list V)) : list (result (list term)) :=
+    map (fun r => logpdf_terms_hot cfg_channels cfg_samples cfg_modifiers st md (parf_batched (md_npars md) rows r)
+                                   (length (nth r rows [])) (nth r datas []))
+        (seq 0 (length rows)).
   End WithSpec.
 End Engine.
 Arguments TPois {N}. Arguments TNorm {N}.
